@@ -77,7 +77,8 @@ func TestC15(t *testing.T) {
 				}
 			} else {
 				for j := 0; j < s.clients; j++ {
-					add(revent{name: fmt.Sprintf("AD(%d)", j), ops: []string{fmt.Sprintf("reattach:%d", j), "start"}, expect: []string{"", "notfound"}}, s)
+					// (asked twice: a failed reattach must not turn into a started client on the second call)
+					add(revent{name: fmt.Sprintf("AD(%d)", j), ops: []string{fmt.Sprintf("reattach:%d", j), "start", "start", "client"}, expect: []string{"", "notfound", "notfound", "err"}}, s)
 					// nothing listens any more, but the recorded pid is (now) a live process: a reused pid
 					add(revent{name: fmt.Sprintf("ADL(%d)", j), ops: []string{fmt.Sprintf("reattachlive:%d", j), "start"}, expect: []string{"", "notfound"}}, s)
 					add(revent{name: fmt.Sprintf("RdDead(%d)", j), ops: []string{fmt.Sprintf("get:@%d", j)}, expect: []string{"err"}}, s)
@@ -152,7 +153,7 @@ func TestC15(t *testing.T) {
 			{"testserve:" + proto, "cancel"},
 			// reattach after the test-mode server's context was cancelled: nothing listens, the pid (our own) is alive
 			{"testserve:" + proto, "treattach", "start", "client", "dispense", "set:7", "kill", "cancel", "treattach", "start!notfound"},
-			{"testserve:" + proto, "cancel", "treattach", "start!notfound"},
+			{"testserve:" + proto, "cancel", "treattach", "start!notfound", "start!notfound"},
 			// a test-mode reattach config that also carries a ReattachFunc (custom runner): Kill must neither stop the
 			// server nor ask the runner to kill anything
 			{"testserve:" + proto, "treattachfn", "start", "client", "dispense", "set:7", "kill", "closed?", "fakekills?", "treattach", "start", "client", "dispense", "get", "kill", "cancel"},
